@@ -429,12 +429,19 @@ func cmdRun(args []string) int {
 				continue
 			}
 			kf := MatchKnown(known, *prop, f)
-			if pr.Stats["worker-process-crashes"] > 0 {
+			if pr.Stats["worker-process-crashes"] > 0 || kf != nil {
 				// the code under test can kill the process on this tree: nothing is replayed inside
-				// the driver; the violation is reported un-minimised after a fresh-process replay
+				// the driver; the violation is reported un-minimised after a fresh-process replay.
+				// A listed known finding takes the same path: it is never minimised, one replay
+				// in a fresh process confirms it (runs of some parts take a minute of CPU each, and
+				// the check that runs on every change must stay short).
+				why := "not minimised (the code under test kills the process in other runs of this batch; no in-process replays)"
+				if pr.Stats["worker-process-crashes"] == 0 {
+					why = "not minimised (listed known finding; confirmed by one fresh-process replay)"
+				}
 				rf := &ReplayFile{Property: *prop, Part: ck.Name, Tier: *tier, Seed: seed, Index: f.Index, Choices: f.Choices,
 					Violation: Violation{Class: f.Class, Detail: f.Detail}, TraceDigest: f.Digest, RepoRev: RepoRev(),
-					Shrunk: "not minimised (the code under test kills the process in other runs of this batch; no in-process replays)"}
+					Shrunk: why}
 				path, err := WriteReplay(filepath.Join(VerifDir(), "replays"), rf)
 				if err != nil {
 					fmt.Printf("HARNESS-ERROR cannot write replay: %v\n", err)
